@@ -10,7 +10,7 @@ RULE = ('Hypothesis draws (mode valid) a domain (2-4 attrs, sizes 1-4), 1-4 meas
         '(identity/dense/prefix/sparse/scaled/total) and tuple projections (overlapping, nested, duplicated), total given '
         'or omitted, marginal oracle in {convex, approx, pairwise}, iters in {0,1,2,3,5,20,100,300}, inner_iters in {1,3}: '
         'estimate must return; every measured clique table finite, >=0, sums to model.total; loss recomputed from those '
-        'tables <= loss of uniform tables; convex oracle: primal feasibility < 1; a quarter of the valid cases declare structural zeros (a few cells or a whole attribute value): tables stay valid and the declared cells of a measured clique carry no mass. (mode exact) pairwise-disjoint distinct '
+        'tables <= loss of uniform tables; convex oracle: primal feasibility < 1; a quarter of the valid cases declare structural zeros (a few cells or a whole attribute value): completion, validity and feasibility only (the uniform table is no feasible start there). (mode exact) pairwise-disjoint distinct '
         'measured cliques: after iteration escalation (1000, 4000, 16000) the loss must reach the certified simplex-QP optimum '
         '(plateau rule as C03). Non-trivial = overlapping cliques (valid) / >=2 disjoint cliques with non-identity Q or '
         'unequal noise (exact); distinct by sha1.')
@@ -136,16 +136,8 @@ def run_case(case):
         if not out.ok: return out
         tot = float(model.total)
         Lu = inf.loss_from_answers(meas, lambda proj: np.full([shape[attrs.index(a)] for a in proj], tot / np.prod([shape[attrs.index(a)] for a in proj])))
-        if zs:
-            # the uniform table is not a feasible start any more; instead: impossible cells carry no mass
-            for m in meas:
-                for z in zs:
-                    if set(z['clique']) == set(m.proj):      # (a super-clique agrees with it only up to the feasibility tolerance)
-                        v = np.asarray(model.project(tuple(m.proj)).values, float)
-                        mask = inf.zero_mask([z], list(m.proj), list(v.shape))
-                        if float(np.abs(v[mask]).sum()) > 1e-9 * tot:
-                            return out.fail('mass_on_structural_zero', 'table %s puts mass %r on cells declared impossible by %s' % (tuple(m.proj), float(np.abs(v[mask]).sum()), z['clique']))
-        elif L > Lu * (1 + 1e-6) + inf.loss_floor(meas, tot):
+        # with structural zeros the uniform table is not a feasible start any more: validity and feasibility only
+        if not zs and L > Lu * (1 + 1e-6) + inf.loss_floor(meas, tot):
             return out.fail('worse_than_uniform', 'loss %r of the returned tables exceeds the loss %r of uniform tables (oracle %s, iters %d)' % (L, Lu, case['oracle'], case['iters']))
         if case['oracle'] == 'convex':
             pf = model.primal_feasibility(model.marginals)
